@@ -12,6 +12,10 @@ def text(s):
     return [ord(c) for c in s]
 
 
+DECOY1 = bytes.fromhex('0279be667ef9dcbbac55a06295ce870b07029bfcdb2dce28d959f2815b16f81798')          # G
+DECOY2 = bytes.fromhex('02c6047f9441ed7d6d3045406e95c07cd85c778e4b8cef3ca7abac09b95c709ee5')          # 2G
+
+
 def run(op, a):
     if op == 1:
         pub = CKey(a[0], bool(a[1])).pub
@@ -19,7 +23,14 @@ def run(op, a):
     if op == 2:
         return CKey(a[0], True).sign(a[1])
     if op == 3:
-        return bool(CPubKey(a[0]).verify(a[1], a[2]))
+        # other public-key objects are created before and after and stay alive: an object's answer
+        # must depend on its own bytes only
+        before = CPubKey(DECOY1)
+        p = CPubKey(a[0])
+        after = CPubKey(DECOY2)
+        r = bool(p.verify(a[1], a[2]))
+        assert before.is_fullyvalid and after.is_fullyvalid
+        return r
     if op == 4:
         p = CPubKey(a[0])
         return [p.is_valid, p.is_fullyvalid, p.is_compressed]
